@@ -56,7 +56,50 @@ def _ws(rng):
     return rng.choice([" ", " ", " ", "  ", "\t", " \n "])
 
 
+def _digits(rng, n):
+    return "".join(rng.choice("0123456789") for _ in range(n))
+
+
+def random_literal(rng):
+    """Literals built from random parts (not from the fixed lists): values nobody thought
+    of in advance - out-of-range dates and times, long numbers, odd strings and names."""
+    k = rng.randrange(9)
+    if k == 0:
+        return rng.choice(["", "-", "+"]) + _digits(rng, rng.randint(1, 22))
+    if k == 1:
+        return "%s.%s%s" % (_digits(rng, rng.randint(1, 4)), _digits(rng, rng.randint(1, 6)),
+                            rng.choice(["", "e5", "E-3", "e+10"]))
+    if k == 2:
+        body = "".join(rng.choice("abc XYZ''%_\\/()#,:=\u00e9\u4e2d") for _ in range(rng.randint(0, 8)))
+        if body.count("'") % 2:
+            body += "'"
+        return "'" + body + "'"
+    if k == 3:
+        return "%s-%s-%s" % (rng.choice(["1999", "2020", "2021", "9999", "1000"]),
+                             rng.choice(["00", "01", "02", "06", "11", "12", "13"]),
+                             rng.choice(["00", "01", "28", "29", "30", "31", "32"]))
+    if k == 4:
+        return "%s:%s%s" % (rng.choice(["00", "09", "12", "23", "24"]), rng.choice(["00", "30", "59"]),
+                            rng.choice(["", ":00", ":59", ":30.5", ":59.999999999999"]))
+    if k == 5:
+        d = "%s-%s-%s" % (rng.choice(["2019", "2020", "2021"]), rng.choice(["02", "04", "12"]),
+                          rng.choice(["28", "29", "30", "31"]))
+        return d + "T" + rng.choice(["00:00", "23:59:59", "12:30:00.123"]) + \
+            rng.choice(["", "Z", "+14:00", "-00:30", "+23:59"])
+    if k == 6:
+        g = "".join(rng.choice("0123456789abcdefABCDEF") for _ in range(32))
+        return "%s-%s-%s-%s-%s" % (g[:8], g[8:12], g[12:16], g[16:20], g[20:])
+    if k == 7:
+        return "duration'%sP%s%sT%s'" % (rng.choice(["", "-", "+"]),
+                                         rng.choice(["", "1Y", "12M", "400D", "1Y2M3D"]),
+                                         "", rng.choice(["1H", "59M", "1.5S", "1H2M3.25S"]))
+    name = rng.choice("abcxyz_") + "".join(rng.choice("abcXYZ019_") for _ in range(rng.randint(0, 9)))
+    return name
+
+
 def literal(rng):
+    if rng.random() < 0.25:
+        return random_literal(rng)
     k = rng.randrange(12)
     if k == 0:
         return rng.choice(INTS)
@@ -248,7 +291,10 @@ def token_error(rng, text):
 
 def function_error(rng, depth=0):
     r = rng.random()
-    if r < 0.45:
+    if r < 0.1:
+        name = rng.choice("fgh") + "".join(rng.choice("abcdefgh") for _ in range(rng.randint(2, 7)))
+        nargs = rng.randrange(0, 3)
+    elif r < 0.45:
         name = rng.choice(UNKNOWN_FUNCS)
         nargs = rng.randrange(0, 3)
     else:
